@@ -78,6 +78,9 @@ def finish(prop, mod, recs, tier, seed, t0, replay_fn, verbose=False, bounded=No
 
     # a case that generated nothing is a checker failure, not a pass
     floor = getattr(mod, "MIN_OBLIGATIONS", 1)
+    bounded_only = not getattr(mod, "CASES", None)
+    if bounded_only:
+        floor = 0
     lines = []
     rc = 0
     viol_count = 0
@@ -176,8 +179,23 @@ def finish(prop, mod, recs, tier, seed, t0, replay_fn, verbose=False, bounded=No
         "explanation": getattr(mod, "EXPLANATION", ""),
     }
     coverage.update(b_cov)
+    level = "proof"
+    if bounded_only:
+        # no function of this property is proved: the evidence is the bounded
+        # run-time check of the contracts, labelled as such
+        level = "exploration"
+        coverage["evaluations"] = b_cov.get("bounded_evaluations", 0)
+        coverage["distinct_nontrivial"] = b_cov.get("bounded_distinct_nontrivial", 0)
+        coverage["rule"] = b_cov.get("bounded_rule", "")
+        coverage["samples"] = b_cov.get("bounded_samples") or [{"note": "no sample"}]
+        coverage["exhaustive"] = False
+        for k in ("obligations", "discharged"):
+            coverage.pop(k, None)
+        if rc == 0 and coverage["evaluations"] < 1:
+            rc = 3
+            lines.append("CHECKER-FAILURE bounded stand-in evaluated nothing")
     ev = {
-        "property_id": prop, "tier": tier, "seed": seed, "level": "proof",
+        "property_id": prop, "tier": tier, "seed": seed, "level": level,
         "coverage": coverage,
         "assumptions": list(getattr(mod, "ASSUMPTIONS", [])),
         "wall_s": wall, "violations": viol_count,
